@@ -25,23 +25,24 @@ import (
 )
 
 type Plan struct {
-	Seed           uint64   `json:"seed"`
-	VT             bool     `json:"vt"`
-	Brokers        int      `json:"brokers"`
-	Topics         int      `json:"topics"`
-	Partitions     int      `json:"partitions"`
-	Protocol       string   `json:"protocol"` // range roundrobin sticky cooperative 848
-	Initial        int      `json:"initial_members"`
-	Churn          []string `json:"churn"` // join / leave / close / restart, applied in order
-	ChurnGapMs     int      `json:"churn_gap_ms"`
-	Records        int      `json:"records"`
-	AutoCommitMs   int      `json:"autocommit_ms"`
-	ProcessMaxUs   int      `json:"process_delay_max_us"`
-	PollRecords    int      `json:"poll_records_max"`
-	AddTopicLate   bool     `json:"add_topic_late"` // a second topic joins the subscription via AddConsumeTopics
-	Yield          int      `json:"yield_level"`
-	BlockRebalance bool     `json:"block_rebalance_on_poll"`
-	SlowRevokeMs   int      `json:"slow_revoke_ms"` // some OnPartitionsRevoked callbacks take this long (several heartbeat intervals)
+	Seed           uint64     `json:"seed"`
+	VT             bool       `json:"vt"`
+	Brokers        int        `json:"brokers"`
+	Topics         int        `json:"topics"`
+	Partitions     int        `json:"partitions"`
+	Protocol       string     `json:"protocol"` // range roundrobin sticky cooperative 848
+	Initial        int        `json:"initial_members"`
+	Churn          []string   `json:"churn"` // join / leave / close / restart, applied in order
+	ChurnGapMs     int        `json:"churn_gap_ms"`
+	Records        int        `json:"records"`
+	AutoCommitMs   int        `json:"autocommit_ms"`
+	ProcessMaxUs   int        `json:"process_delay_max_us"`
+	PollRecords    int        `json:"poll_records_max"`
+	AddTopicLate   bool       `json:"add_topic_late"` // a second topic joins the subscription via AddConsumeTopics
+	Yield          int        `json:"yield_level"`
+	BlockRebalance bool       `json:"block_rebalance_on_poll"`
+	SlowRevokeMs   int        `json:"slow_revoke_ms"` // some OnPartitionsRevoked callbacks take this long (several heartbeat intervals)
+	Hooks          []kgo.Hook `json:"-"`              // extra hooks installed on every member (C14)
 }
 
 type Event struct {
@@ -360,6 +361,9 @@ func Run(plan Plan, watchdog time.Duration) (res *Result) {
 		}
 		if plan.BlockRebalance {
 			opts = append(opts, kgo.BlockRebalanceOnPoll())
+		}
+		if len(plan.Hooks) > 0 {
+			opts = append(opts, kgo.WithHooks(plan.Hooks...))
 		}
 		cl, err := env.NewClient(opts...)
 		if err != nil {
